@@ -270,12 +270,21 @@ class Contract:
             prove_clause(I, "%s::call[%s]::requires::" % (caller, self.qual), cl, kind="callsite")
         c.old = I.snapshot()
         I.trace.append(("call", self.qual))
-        specs = raise_specs(self.raises(c))
+        I.in_callsite = getattr(I, "in_callsite", 0) + 1
+        I._pending_exists = []
+        try:
+            specs = raise_specs(self.raises(c))
+        finally:
+            I.in_callsite -= 1
+        pending = list(I._pending_exists)
         for typ, spec in specs:
             if spec.get("late"):
                 continue
             when = spec["when"]
             if I.branch(when):
+                from contracts._spec import activate_exists
+                for e in pending:
+                    activate_exists(I, e)     # the raising side: the witnesses of its existential conditions exist
                 for loc in spec.get("modifies", []):
                     havoc_loc(I, loc)
                 for cl in spec.get("post", []):
